@@ -724,6 +724,73 @@ func (a *FnAnalysis) Gates() []Gate {
 			}
 		}
 	}
+	// a stage helper without a verdict result (`data := r.gather()`): the checks that make it panic /
+	// not return are checks of the caller (a long function turned into a driver calling stages)
+	if a.depth < 2 {
+		for _, b := range fn.Blocks {
+			if _, reached := a.mustIn[b]; !reached {
+				continue
+			}
+			for i, in := range b.Instrs {
+				ci, ok := in.(ssa.CallInstruction)
+				if !ok || ci.Common().IsInvoke() {
+					continue
+				}
+				f := ci.Common().StaticCallee()
+				if !Inlinable(f) || f == fn || hasVerdict(f) {
+					continue
+				}
+				if _, isGo := in.(*ssa.Go); isGo {
+					continue
+				}
+				if _, isDefer := in.(*ssa.Defer); isDefer {
+					continue
+				}
+				// the helper's checks guard what comes AFTER the call
+				if !a.reach(nil, b, i+1) {
+					continue
+				}
+				inlineBusy[f] = true
+				ha := Analyze(f, AcceptSpec{})
+				ha.depth = a.depth + 1
+				hg := ha.Gates()
+				delete(inlineBusy, f)
+				if len(hg) == 0 {
+					continue
+				}
+				must := len(accepts) > 0
+				for _, acc := range accepts {
+					ab := acc.Block()
+					if ab == b {
+						if instrIndex(acc) <= i {
+							must = false
+						}
+						continue
+					}
+					if !b.Dominates(ab) {
+						must = false
+					}
+				}
+				var args []string
+				var deps []string
+				for _, arg := range ci.Common().Args {
+					args = append(args, a.D.Val(arg))
+					if a.Deps != nil {
+						deps = unionStr(deps, a.Deps.Of(arg))
+					}
+				}
+				for _, h := range hg {
+					cond := a.D.SubstFree(ci.Common().Value, SubstParams(h.Cond, args))
+					key := fmt.Sprintf("%s|%v", cond, h.FailWhen)
+					if old, ok := byKey[key]; ok {
+						old.MustPass = old.MustPass || (must && h.MustPass)
+						continue
+					}
+					byKey[key] = &Gate{Cond: cond, FailWhen: h.FailWhen, MustPass: must && h.MustPass, Once: h.Once, Pos: in.Pos(), Deps: deps, val: nil}
+				}
+			}
+		}
+	}
 	var out []Gate
 	for _, g := range byKey {
 		out = append(out, *g)
@@ -736,6 +803,7 @@ func (a *FnAnalysis) Gates() []Gate {
 	})
 	return out
 }
+
 
 // JointMust: every path from the entry to an accept outcome evaluates at
 // least one of the given checks (the same check made on each branch).
@@ -914,6 +982,10 @@ func (a *FnAnalysis) Bounds() []string {
 			continue
 		}
 		if isSelectCase(bo.X) || isSelectCase(bo.Y) {
+			continue
+		}
+		// `for i := range n` is lowered to an entry guard `0 < n` in front of a rotated loop: a loop test
+		if len(b.Succs) == 2 && (b.Succs[0].Comment == "rangeint.body" || b.Succs[0].Comment == "rangeint.done" || b.Succs[1].Comment == "rangeint.body") {
 			continue
 		}
 		// the same test made at several places counts several times ("cond", "cond #2", …):
